@@ -156,6 +156,8 @@ def noise_task(kind, n, m, tier):
         def normal(loc=0.0, scale=1.0, size=None):
             if loc != 0.0 or scale != 1.0 or size is None:
                 raise HarnessError("np.random.normal called with unexpected arguments")
+            if isinstance(size, (int, np.integer)):
+                size = (int(size),)
             X = ctx.reals(f"X{len(Xs)}", *size)
             Xs.append(X)
             return X
@@ -520,8 +522,12 @@ def _replay_noise(case):
         cov = np.cov(y.T)
         err = np.abs(cov - np.eye(m) * nv).max() / nv
         mean_err = np.abs(y.mean(axis=0)).max() / np.sqrt(nv)
-        return {"reproduced": bool(err > 0.03 or mean_err > 0.02),
-                "detail": f"sample covariance rel. error {err:.4f}, mean error {mean_err:.4f} (configured var {nv})"}
+        # independence across the rows of one call: consecutive rows must be uncorrelated
+        r0, r1 = y[0::2][: n // 2], y[1::2][: n // 2]
+        cross = max(abs(np.corrcoef(r0[:, k], r1[:, k])[0, 1]) for k in range(m))
+        return {"reproduced": bool(err > 0.03 or mean_err > 0.02 or cross > 0.03),
+                "detail": f"sample covariance rel. error {err:.4f}, mean error {mean_err:.4f}, correlation between the noise of "
+                          f"two points of one batch {cross:.3f} (configured var {nv})"}
     finally:
         np.random.set_state(rng_state)
 
